@@ -24,7 +24,7 @@ def parse(o):
         for kv in w[1:]:
             k, _, v = kv.partition("=")
             d[k] = v
-        for k in ("rc", "app", "draws", "sent", "after", "cap"):
+        for k in ("rc", "app", "draws", "sent", "after", "cap", "ivs", "ivdup", "sendfail"):
             d[k] = int(d.get(k, "0"))
         res[w[0]] = d
     return res if "client" in res and "server" in res else None
@@ -68,6 +68,57 @@ def c18_handshakes(ctx, failing, witnessed):
         for role in ("client", "server"):
             for i in range(r[role]["draws"]):
                 cases.append((p, role, i, "hs %s %d %s%s" % (m[0], seeds[m], ("%d -1" % i) if role == "client" else ("-1 %d" % i), m[1])))
+    # ---- wave 2: k consecutive failing attempts with a chosen errno at a draw (then the healthy bytes), and the
+    #      application phase with an IV draw failing in the middle
+    ecases, acases = [], []
+    for m, o in zip(modes, base):
+        r = parse(o)
+        if not r or any(r[x]["rc"] != 1 for x in ("client", "server")):
+            continue
+        if m[1] and m[0] != "tls13" and ctx.tier != "thorough":
+            continue
+        p = m[0] + ("+clientauth" if m[1] else "")
+        for role in ("client", "server"):
+            d = r[role]["draws"]
+            idx = sorted({0, d - 1}) if ctx.tier != "thorough" else sorted({0, 1, d // 2, d - 1})
+            for i in idx:
+                for k in ((1, 8, 16) if ctx.tier != "thorough" else (1, 2, 7, 8, 9, 16)):
+                    for en in (("EINTR", "untouched") if ctx.tier != "thorough" else ("EINTR", "EAGAIN", "EIO", "ENOSYS", "untouched")):
+                        ecases.append((p, role, i, k, en, r[role]["sentdg"],
+                                       "hs %s %d %s%s k=%d:%s" % (m[0], seeds[m], ("%d -1" % i) if role == "client" else ("-1 %d" % i), m[1], k, en)))
+        if m[0] != "tls13":
+            acases.append((p, "hs %s %d -1 -1%s app=9" % (m[0], seeds[m], m[1])))
+    eouts, _ = core.run_lines(exe, [c[6] for c in ecases] + [c[1] for c in acases], shards=4)
+    for (p, role, i, k, en, dg, line), o in zip(ecases, eouts):
+        ctx.cov["evaluations"] += 1
+        ctx.count("hs-eint")
+        r = parse(o)
+        me = r[role] if r else None
+        if me is None or me["rc"] == -99:
+            ctx.violation("eint:hs:%s:%s" % (p, role), "%s dies when draw %d fails %d time(s) with errno %s: `%s` -> %s" % (role, i, k, en, line, o[:200]),
+                          {"kind": "failing-input", "op": line, "impl": o, "expected": "reported failure, or the healthy handshake", "variant": "asan"}, True)
+        elif me["rc"] != 1:
+            ctx.cell("hs-eint:%s:%s:%s:k%s:ERR" % (p, role, en, "1" if k == 1 else ("<=8" if k <= 8 else ">8")))
+        elif me["app"] == 1 and me["sentdg"] == dg:
+            ctx.cell("hs-eint:%s:%s:%s:k%s:retried" % (p, role, en, "1" if k == 1 else ("<=8" if k <= 8 else ">8")))
+        else:
+            ctx.violation("eint:hs:%s:%s" % (p, role), "%s completes the handshake with bytes the entropy source never served (draw %d failed %d time(s), errno %s; sent digest %s, healthy %s): `%s`" % (
+                role, i, k, en, me["sentdg"], dg, line),
+                {"kind": "failing-input", "op": line, "impl": o, "expected": "rc != 1, or exactly the bytes of the healthy handshake", "variant": "asan"}, True)
+    for (p, line), o in zip(acases, eouts[len(ecases):]):
+        ctx.cov["evaluations"] += 1
+        ctx.count("hs-app")
+        r = parse(o)
+        me = r["client"] if r else None
+        if me is None or me["rc"] != 1:
+            ctx.violation("recover-broken:hs:" + p, "application phase not reached: `%s` -> %s" % (line, o[:200]),
+                          {"kind": "failing-input", "op": line, "impl": o, "expected": "handshake completes", "variant": "asan"}, True)
+        elif int(me["ivdup"]) != 0 or int(me["ivs"]) < 7 or int(me["sendfail"]) > 1:
+            ctx.violation("recover-reuse:hs:" + p, "record IVs of one connection around a failed IV draw: ivs=%s ivdup=%s (1 = repeated, 2 = unfilled buffer) sendfail=%s: `%s`" % (
+                me["ivs"], me["ivdup"], me["sendfail"], line),
+                {"kind": "failing-input", "op": line, "impl": o, "expected": "9 sends, exactly one reported failure, 8 pairwise distinct IVs from the source", "variant": "asan"}, True)
+        else:
+            ctx.cell("hs-app:%s:ivs-distinct:sendfail=%s" % (p, me["sendfail"]))
     outs, err = core.run_lines(exe, [c[3] for c in cases], shards=4)
     unchecked = {(r["fn"], r["line"]): key for key, r in failing}
     nopen = 0
